@@ -41,26 +41,35 @@ const parserLoadMode = packages.NeedName | packages.NeedImports | packages.NeedD
 // or that was generated before the package was renamed, would otherwise change what is loaded.
 // The file is presented as an empty file of the setup file's package.
 func outputOverlay(srcPath, dstPath string) map[string][]byte {
-	absSrc, err1 := filepath.Abs(srcPath)
-	absDst, err2 := filepath.Abs(dstPath)
-	if err1 != nil || err2 != nil {
+	absSrc, err := filepath.Abs(srcPath)
+	if err != nil {
 		return nil
 	}
-	// The go command reads the directory as it is on disk, however the two paths are spelled:
-	// follow the links. Nothing to hide if nothing is there.
-	srcDir, err1 := filepath.EvalSymlinks(filepath.Dir(absSrc))
-	realDst, err2 := filepath.EvalSymlinks(absDst)
-	if err1 != nil || err2 != nil || srcDir != filepath.Dir(realDst) {
+	dstStat, err := os.Stat(dstPath)
+	if err != nil {
+		// Nothing to hide if nothing is there.
 		return nil
 	}
-	// The go command runs in the setup file's directory as spelled and names the files from there.
-	absDst = filepath.Join(filepath.Dir(absSrc), filepath.Base(realDst))
 	file, err := parser.ParseFile(token.NewFileSet(), absSrc, nil, parser.PackageClauseOnly)
 	if err != nil {
 		// The load below reports the syntax error with its position.
 		return nil
 	}
-	return map[string][]byte{absDst: []byte("package " + file.Name.Name + "\n")}
+	// The go command reads the directory as it is on disk, however the output path is spelled
+	// (through links, with "..") and whatever the entry is called: go by the identity of the file.
+	dir := filepath.Dir(absSrc)
+	entries, err := os.ReadDir(dir)
+	if err != nil {
+		return nil
+	}
+	overlay := map[string][]byte{}
+	for _, entry := range entries {
+		name := filepath.Join(dir, entry.Name())
+		if stat, err := os.Stat(name); err == nil && os.SameFile(stat, dstStat) {
+			overlay[name] = []byte("package " + file.Name.Name + "\n")
+		}
+	}
+	return overlay
 }
 
 // NewParser returns a new parser for convergen annotations.
